@@ -293,7 +293,9 @@ class Program(object):
                 cls._REF = (None, {})
         return cls._REF
 
-    def expandable(self, caller, ev, g):
+    STD_LAMBDA_LOOPS = ("std::for_each", "std::any_of", "std::all_of", "std::none_of", "std::find_if", "std::find_if_not", "std::count_if", "std::transform", "std::generate_n", "std::remove_if")
+
+    def expandable(self, caller, ev, g, root=None):
         """g is a helper the code of `caller` was moved into after the rules were written: a library function that does not exist in
         the reference snapshot, or a local lambda of `caller` bound to a variable the reference does not know.  Functions and lambdas
         that existed when the rules were confirmed are never expanded (the rules deal with them as they are)."""
@@ -302,9 +304,12 @@ class Program(object):
             return False
         if g.is_lambda:
             top = self.owner(caller)
-            if self.owner(g).id != top.id:
-                return False
             var = (ev.get("recv") or {}).get("v") or (ev.get("recv") or {}).get("root")
+            if self.owner(g).id != top.id:
+                # a lambda written in the function being flattened and invoked, through a parameter, inside a helper it was handed to
+                if root is not None and self.owner(g).id == self.owner(root).id and not caller.is_lambda and caller.id != root.id:
+                    return bool(var) and var in {p_.get("name") for p_ in caller.params}
+                return False
             return bool(var) and var not in lams.get(top.base, set())
         pref = (os.path.join(REPO, "src") + os.sep, os.path.join(REPO, "include") + os.sep)
         return g.file.startswith(pref) and g.base not in names
@@ -318,18 +323,32 @@ class Program(object):
         if func.id in memo:
             return memo[func.id]
         memo[func.id] = func
-        res = self._flatten(func, depth, (func.id,))
+        res = self._flatten(func, depth, (func.id,), func)
         memo[func.id] = res
         return res
 
-    def _flatten(self, func, depth, stack):
+    def _flatten(self, func, depth, stack, root=None):
+        root = root or func
+        names_, lams_ = self.reference()
         todo = []
         for b in func.blocks.values():
             for e in b.elems:
                 if e["k"] == "call" and depth > 0:
-                    gs = [g for g in self.resolve_call(e) if g.id not in stack and self.expandable(func, e, g)]
+                    gs = [g for g in self.resolve_call(e) if g.id not in stack and self.expandable(func, e, g, root)]
                     if len(gs) >= 1 and not e.get("virt"):
-                        todo.append((b.id, e.idx, gs[0]))
+                        todo.append((b.id, e.idx, gs[0], False))
+                        continue
+                    # a standard algorithm handed a lambda written here (and not known to the reference): the lambda body runs
+                    # zero or more times at this point
+                    if (e.get("callee") or "").split("<")[0] in self.STD_LAMBDA_LOOPS and names_ is not None:
+                        for a_ in e.get("args", []):
+                            if a_.get("lam"):
+                                ls_ = [g for g in self.lambda_by_id(a_["lam"].split("#in:")[0], func) if g.blocks and g.id not in stack]
+                                known = self.owner(func).base in names_ and self.owner(func).id == self.owner(root).id and \
+                                    not getattr(self.owner(func), "flattened", False) and self._lambda_in_reference(self.owner(func), e)
+                                if ls_ and not known:
+                                    todo.append((b.id, e.idx, ls_[0], True))
+                                    break
         if not todo:
             return func
         import copy
@@ -349,10 +368,13 @@ class Program(object):
             nf.blocks[bid] = blk
             return blk
         by_block = {}
-        for bid, idx, g in todo:
-            by_block.setdefault(bid, []).append((idx, g))
+        for bid, idx, g, loop in todo:
+            by_block.setdefault(bid, []).append((idx, g, loop))
         for b in func.blocks.values():
             pieces = sorted(by_block.get(b.id, []), key=lambda x: x[0])
+            # one expansion per call event
+            seen_idx = set()
+            pieces = [p_ for p_ in pieces if not (p_[0] in seen_idx or seen_idx.add(p_[0]))]
             if not pieces:
                 mk(b.id, [clone_ev(e) for e in b.elems], b.succs, b.term, b.label)
                 continue
@@ -361,11 +383,16 @@ class Program(object):
             span = 1.0 / (len(pieces) + 1)
             start = 0
             cur = mk(b.id, [], [], None, b.label)
-            for j, (idx, g) in enumerate(pieces, 1):
-                gflat = self._flatten(g, depth - 1, stack + (g.id,))
+            for j, (idx, g, loop) in enumerate(pieces, 1):
+                gflat = self._flatten(g, depth - 1, stack + (g.id,), root)
                 call = b.elems[idx]
                 cur.elems += [clone_ev(e) for e in b.elems[start:idx + 1]]
                 cur.elems[-1]["inlined"] = gflat.id
+                # the caller branches on what the helper returned: which of the helper's paths goes with which branch is not modelled
+                t_ = b.term or {}
+                if idx == len(b.elems) - 1 or all(x["k"] in ("cast", "use") for x in b.elems[idx + 1:]):
+                    if t_ and ("c:" + (call.get("callee") or "")) in (t_.get("refs") or []) and len({str(r_.get("const")) + (r_.get("t") or "") for r_ in gflat.events("return")} | {str(r_.get("const")) + (r_.get("t") or "") for r_ in gflat.events("iret") if r_.get("of") == gflat.id}) > 1:
+                        nf.__dict__.setdefault("unmodelled", []).append("the result of %s is branched on at line %s (which of its paths goes with which branch is not modelled)" % (gflat.base.rsplit("::", 1)[-1], t_.get("l")))
                 for i, p_ in enumerate(gflat.params):
                     args = call.get("args") or []
                     if i < len(args) and p_.get("name"):
@@ -445,6 +472,14 @@ class Program(object):
                     mk(idmap[gb.id], elems, succs, subst(gb.term) if gb.term else gb.term, gb.label)
                 cur.succs = [idmap[gflat.entry]] if gflat.entry != gflat.exit else [rest_id]
                 cur.term = None
+                if loop and gflat.entry != gflat.exit:
+                    # zero or more executions: a header that either enters the body or goes on; the body's returns come back to it
+                    hdr_id = base_hi + span * 0.02
+                    mk(hdr_id, [], [idmap[gflat.entry], rest_id], {"k": "while", "cond": "<elements left>", "synthetic": True, "l": call.get("l")}, None)
+                    cur.succs = [hdr_id]
+                    for cb in nf.blocks.values():
+                        if cb.id in idmap.values():
+                            cb.succs = [hdr_id if s_ == rest_id else s_ for s_ in cb.succs]
                 cur = mk(rest_id, [], [], None, None)
                 start = idx + 1
             cur.elems += [clone_ev(e) for e in b.elems[start:]]
@@ -458,6 +493,12 @@ class Program(object):
                 if s_ is not None and s_ in nf.blocks:
                     nf.blocks[s_].preds.append(blk.id)
         return nf
+
+    def _lambda_in_reference(self, func, ev):
+        """heuristic for lambdas handed to standard algorithms: the reference snapshot lists only *named* local lambdas, so an
+        algorithm call is taken as known only when the function had such a call on the reference tree (recorded as "<algo>")"""
+        names_, lams_ = self.reference()
+        return ("<%s>" % (ev.get("callee") or "").split("<")[0]) in lams_.get(func.base, set())
 
     def owner(self, func):
         """the named function a (possibly nested) lambda is written in; func itself when it is not a lambda"""
